@@ -444,5 +444,46 @@ def r19_8(ctx):
     return r
 
 
+def r19_9(ctx):
+    """'... and is dropped rather than handed to a receiver of another media section': which route a registration call
+    updates is found by position in `ListenerRegistry.routes`. Positions are only valid until the vector shrinks: the
+    registry prunes closed routes (`retain`), and an index computed BEFORE the pruning and used AFTER it points at the
+    next section's route - a re-offer then writes one section's payload-type list, MID or provisional flag onto another
+    section, and packets routed by payload type go to the wrong receiver. Decided: in the registry no index obtained
+    from a search of `routes` is used to index `routes` after a call that can shorten it."""
+    r = RuleResult("R19.9", "K4/dataflow", "no position in the route table is used after the table was pruned")
+    shrink = ("retain", "remove", "swap_remove", "drain", "truncate", "clear", "pop", "dedup_by", "retain_mut")
+    n = 0
+    for b in ctx.facts.bodies(prefix="transports::rtp::ListenerRegistry::"):
+        if "::tests::" in b.name:
+            continue
+        finds = [bi for bi, t, p in b.calls() if p and p.split("::")[-1] in ("position", "rposition") and mir.has_field(b.term_call(t), "routes")]
+        if not finds:
+            continue
+        r.scope.append(b.name)
+        shr = [bi for bi, t, p in b.calls() if p and p.split("::")[-1] in shrink and t["a"] and mir.has_field(b.term_operand(t["a"][0]), "routes")]
+        uses = [bi for bi, t, p in b.calls() if p and ("::index" in p or "::get" in p.split("<")[0][-12:]) and t["a"] and
+                mir.has_field(b.term_operand(t["a"][0]), "routes") and len(t["a"]) > 1 and
+                mir.has(b.term_operand(t["a"][1]), lambda x: x[0] == "call" and x[1].split("::")[-1] in ("position", "rposition"))]
+        for fb in finds:
+            n += 1
+            after_find = b.reachable([t for t, _ in b.succ_edges(fb)], cut_edges=b.back_edges())
+            bad = None
+            for sb in shr:
+                if sb in after_find:
+                    after_shrink = b.reachable([t for t, _ in b.succ_edges(sb)], cut_edges=b.back_edges())
+                    hit = [u for u in uses if u in after_shrink]
+                    if hit:
+                        bad = (sb, hit[0])
+            if bad:
+                r.violate(b.name, "routes:stale-index", b.where(bad[1]),
+                          "an index found before `routes` is pruned (%s) is used to index it afterwards: when a closed route sat in front, the "
+                          "registration is applied to the NEXT media section's route" % b.where(bad[0]))
+            else:
+                r.ok({"search": b.where(fb), "index used": "only while the table is unchanged"})
+    r.need("searches of the route table by position", n, 1)
+    return r
+
+
 def run(ctx):
-    return [r19_1(ctx), r19_2(ctx), r19_3(ctx), r19_4(ctx), r19_5(ctx), r19_6(ctx), r19_7(ctx), r19_8(ctx)]
+    return [r19_1(ctx), r19_2(ctx), r19_3(ctx), r19_4(ctx), r19_5(ctx), r19_6(ctx), r19_7(ctx), r19_8(ctx), r19_9(ctx)]
